@@ -92,7 +92,8 @@ def gen_solve_case(rng):
                 arr = rng.random() < 0.35
                 pick = (lambda: [rng.choice(P) for _ in range(n)]) if arr else (lambda: rng.choice(P))
                 a1 = pick()
-                r0 = rng.choice([0, 0, 1, -2, Fraction(1, 2), 3])
+                bad = set(-x for x in (a1 if arr else [a1]))        # ref = a1 + ref0 must not vanish
+                r0 = rng.choice([r for r in [0, 0, 1, -2, Fraction(1, 2), 3] if r not in bad])
                 o['ref0'] = r0
                 o['ref'] = [x + r0 for x in a1] if arr else a1 + r0
                 if rng.random() < 0.8:
